@@ -364,7 +364,7 @@ func (e *explorer) level(mergeCheck bool, expired func() bool) bool {
 		}
 		n := frontier[ix]
 		rs := e.walk(n.hist, n.key, func(li uint8, r result) {
-			if (ix*L+int(li))%7919 == 0 {
+			if (ix*L+int(li)+1)%997 == 0 {
 				e.samples.Add(e.kase(append(append([]uint8{}, n.hist...), li)))
 			}
 			h := append(append(make([]uint8, 0, len(n.hist)+1), n.hist...), li)
@@ -574,7 +574,7 @@ func main() {
 			st.Extension = "cut (time cap)"
 			extensionsComplete = false
 		}
-		st.WallS += float64(int(time.Since(t0).Seconds()*100)) / 100
+		st.WallS = float64(int((st.WallS+time.Since(t0).Seconds())*100)) / 100
 		e.seen, e.frontier = nil, nil
 	}
 	for _, st := range all {
